@@ -106,11 +106,12 @@ def step (line : String) : String :=
   match words line with
   | ["blur", sh, bits, size] =>
     match parseMask? sh bits, parseInt? size with
-    | some m, some s => if s < 0 then "ERR" else showMask (m.blur s.toNat)
+    | some m, some s => match m.blur? s with | some r => showMask r | none => "ERR"
     | _, _ => "BAD"
   | ["blurall", sh, bits, mx] =>
     match parseMask? sh bits, parseNat? mx with
-    | some m, some mx => joinWith "|" ((List.range (mx + 1)).map fun s => showMask (m.blur s))
+    | some m, some mx => joinWith "|" ((List.range (mx + 1)).map fun s =>
+        match m.blur? (Int.ofNat s) with | some r => showMask r | none => "ERR")
     | _, _ => "BAD"
   | ["smear", sh, bits, ax] =>
     match parseMask? sh bits, parseBits? ax with
